@@ -84,6 +84,7 @@ def main():
             shutil.copytree(src, wt + "/mutants/" + v, ignore=shutil.ignore_patterns("*.log","*.txt","patch.diff","notes.md","meta.json"))
         else:
             for s, d in place:
+                os.makedirs(os.path.dirname(wt + "/" + d), exist_ok=True)
                 shutil.copy(src + "/" + s, wt + "/" + d)
         res = {}
         rc, o = sh(["go","test","-count=1","-timeout","30m"] + args, wt)
